@@ -126,9 +126,17 @@ def make_harness(K: int, first_ops: list[str], digest_sizes: list[int], max_hand
             """id determinism: created while no registered node has the same id pre-image
             (and, to stay within what the statement can mean under colliding digests, no
             registered node shares the base digest) -> same id every time."""
-            if twin_before or collision_before:
+            if twin_before:
                 return
             k = _idkey(new)
+            if collision_before:
+                # another node of different content holds the base digest: the statement still
+                # applies (no registered node has this class / origin / content / children); the id
+                # may carry a suffix, but with the same nodes registered under that base it is the
+                # same suffix every time, whatever was created and dropped in between
+                base = new.id.split("_")[0]
+                holders = frozenset(o.id for o in _closure(handles).values() if o is not new and id(o) not in gone and o.id.split("_")[0] == base)
+                k = (k, holders)
             if k in base_ids and base_ids[k] != new.id:
                 scenario.update(idkey=repr(k), first_id=base_ids[k], now_id=new.id)
                 e.fail("id-not-deterministic", scenario=scenario)
